@@ -1807,6 +1807,10 @@ class SpaceUpdater(SharedSpaceOperations):
         for b in basenodes:
             self._graph.remove_edge(b, node)
 
+        # Refuse before anything is re-derived, as add_bases does
+        for n in itertools.chain({node}, nx.descendants(self._graph, node)):
+            self._graph.get_mro(n)
+
         self._instructions.append(
             Instruction(self._update_derived_space, (node,))
         )
